@@ -35,13 +35,11 @@ def run_property(prop, tier, model=None, write=True, quiet=False):
             pm.thorough_extra(model, rep)
         return code, rep
     except AnalysisError as e:
+        # a tree verdict reached so far is reported first, so that a violation is never masked by exit 2
+        code = rep.finalize(write=write) if rep.violations() else 0
         if not quiet:
-            # a tree verdict reached so far is printed first so that a violation is never masked
-            for o in rep.violations():
-                print('  (before the analysis error) %s:%s %s [%s] %s -- %s'
-                      % (o.file, o.line, o.qual, o.rule, o.construct[:160], o.msg))
             print('ANALYSIS-ERROR property=%s %s' % (prop, e))
-        return 2, rep
+        return (1 if code == 1 else 2), rep
     except Exception:
         if not quiet:
             print('ANALYSIS-ERROR property=%s internal error' % prop)
